@@ -2,7 +2,12 @@
 // overlay, textual time.Now() -> vclock.Now()) to read this clock, which the harness sets.
 package vclock
 
-import "time"
+import (
+	"runtime"
+	"sync"
+	"sync/atomic"
+	"time"
+)
 
 var fixed *time.Time
 
@@ -15,4 +20,86 @@ func Now() time.Time {
 		return *fixed
 	}
 	return time.Now()
+}
+
+// ---- virtual tickers ---------------------------------------------------------------------------
+
+// Ticker replaces *time.Ticker in files rewritten by the clock seam: it never fires by itself, the harness
+// fires all live tickers with Tick().
+type Ticker struct {
+	C       <-chan time.Time
+	c       chan time.Time
+	stopped bool
+}
+
+var (
+	mu      sync.Mutex
+	tickers []*Ticker
+)
+
+func NewTicker(d time.Duration) *Ticker {
+	c := make(chan time.Time)
+	t := &Ticker{C: c, c: c}
+	mu.Lock()
+	tickers = append(tickers, t)
+	mu.Unlock()
+	return t
+}
+
+func (t *Ticker) Stop()                 { t.stopped = true }
+func (t *Ticker) Reset(d time.Duration) {}
+
+// Done is called (through the clock-seam rewrite) by a ticker loop when it has finished the work of one tick.
+func Done() { atomic.AddInt64(&doneCount, 1) }
+
+var doneCount int64
+
+// Tick delivers one tick to every live ticker and waits until the receiving loop reports (Done) that the
+// work triggered by the tick is complete, so the harness never changes the clock under a running sweep.
+func Tick() {
+	mu.Lock()
+	live := append([]*Ticker{}, tickers...)
+	mu.Unlock()
+	for _, t := range live {
+		if t.stopped {
+			continue
+		}
+		before := atomic.LoadInt64(&doneCount)
+		select {
+		case t.c <- Now():
+		case <-time.After(5 * time.Second):
+			continue // nobody listens on this ticker any more
+		}
+		deadline := time.Now().Add(10 * time.Second)
+		for atomic.LoadInt64(&doneCount) == before {
+			if time.Now().After(deadline) {
+				panic("vclock: ticker loop did not report completion of a tick")
+			}
+			runtime.Gosched()
+		}
+	}
+}
+
+// WaitTickers blocks until at least n tickers exist (a loop that creates its ticker in its own goroutine).
+func WaitTickers(n int) {
+	deadline := time.Now().Add(10 * time.Second)
+	for {
+		mu.Lock()
+		c := len(tickers)
+		mu.Unlock()
+		if c >= n {
+			return
+		}
+		if time.Now().After(deadline) {
+			panic("vclock: expected ticker was never created")
+		}
+		runtime.Gosched()
+	}
+}
+
+// ResetTickers forgets all tickers (between scenarios).
+func ResetTickers() {
+	mu.Lock()
+	tickers = nil
+	mu.Unlock()
 }
